@@ -79,3 +79,26 @@ T("sum-generator-inputs", ["C01", "C02"], CONS,
         total_output_value += output.value
     if total_output_value > total_input_value:
         raise ValidateTransactionError('Transaction overspending')""")
+
+T("subsidy-shift-form", ["C16", "C02"], CONS, "    return INITIAL_SUBSIDY // (2 ** halvings)  # type: ignore", "    return INITIAL_SUBSIDY >> halvings  # type: ignore")
+T("subsidy-literal-interval", ["C16", "C02"], CONS, "    halvings = height // SUBSIDY_HALVING_INTERVAL", "    halvings = height // 1_050_000")
+T("subsidy-no-64-branch-reorder", ["C16"], CONS, "    if halvings >= 64:\n        return 0\n\n    return INITIAL_SUBSIDY // (2 ** halvings)  # type: ignore",
+  "    if halvings < 64:\n        return INITIAL_SUBSIDY // (2 ** halvings)  # type: ignore\n\n    return 0")
+T("range-two-ifs", ["C02"], CONS, "    if not (0 < value <= MAX_SASHIMI):\n        raise ValidationError(\"Value out of range.\")",
+  "    if value <= 0:\n        raise ValidationError(\"Value out of range.\")\n    if value > MAX_SASHIMI:\n        raise ValidationError(\"Value out of range.\")")
+T("reward-sides-swapped", ["C02", "C12"], CONS, "    if sum(output.value for output in transaction.outputs) > fees + subsidy:",
+  "    if subsidy + fees < sum(output.value for output in transaction.outputs):")
+T("height-guard-rearranged", ["C02", "C05"], CONS, "    if block.height != calculated_current_height:", "    if block.height - 1 != previous_height:")
+
+T("clamp-min", ["C05"], CONS, "    if result > pow(2, 32 * 8) - 1:\n        result = pow(2, 32 * 8) - 1  # TBH we have bigger problems if the target has become \"anything goes\", but still..\n",
+  "    result = min(result, 2 ** 256 - 1)\n")
+T("retarget-literal", ["C05"], CONS, "    result = (i_previous_target * actual_time_passed) // DESIRED_TARGET_READJUSTMENT_TIMESPAN", "    result = (actual_time_passed * i_previous_target) // 1209600")
+T("pow-lt-form", ["C05"], CONS, "    if hash >= target:\n        raise ValidatePOWError(\"hash >= target\")", "    if not hash < target:\n        raise ValidatePOWError(\"hash >= target\")")
+T("calc-target-else", ["C05"], CONS,
+  "        return calculate_new_target(previous_block.target, time_passed)\n\n    return previous_block.target",
+  "        return calculate_new_target(previous_block.target, time_passed)\n    else:\n        return previous_block.target")
+T("ts-flip", ["C05"], CONS, "    if block_summary.timestamp <= previous_block.timestamp:", "    if previous_block.timestamp >= block_summary.timestamp:")
+T("future-flip", ["C05"], CONS, "    if block_header.summary.timestamp > current_timestamp + MAX_FUTURE_BLOCK_TIME:", "    if block_header.summary.timestamp - MAX_FUTURE_BLOCK_TIME > current_timestamp:")
+T("evidence-local-rename", ["C05", "C06"], CONS,
+  "    reconstructed_evidence = construct_pow_evidence(coinstate, block.header.summary, block.height, block.transactions)\n    if block.header.pow_evidence != reconstructed_evidence:",
+  "    if construct_pow_evidence(coinstate, block.summary, block.header.summary.height, block.transactions) != block.pow_evidence:")
